@@ -147,8 +147,6 @@ U.add('mono_F2x11_1x10', [('float', 3), ('float', 3)], [('uint32_t', 2)], 'o[0] 
 U.add('pack_F3x9_E1x5', [('float', 3)], [('uint32_t', 1)], 'o[0] = glm::packF3x9_E1x5(ldv<3,float>(a));')
 U.add('unpack_F3x9_E1x5', [('uint32_t', 1)], [('float', 3)], 'stv(o, glm::unpackF3x9_E1x5(a[0]));')
 U.add('rt_F3x9_E1x5', [('uint32_t', 1)], [('uint32_t', 1)], 'o[0] = glm::packF3x9_E1x5(glm::unpackF3x9_E1x5(a[0]));')
-U.add('libm_pow2', [('float', 1)], [('float', 1)], 'o[0] = std::pow(2.0f, a[0]);')
-U.add('libm_log2', [('float', 1)], [('float', 1)], 'o[0] = std::log2(a[0]);')
 for t in ('float', 'double'):
     U.add('rgbm_pack_' + t, [(t, 3)], [(t, 4)], 'stv(o, glm::packRGBM(ldv<3,%s>(a)));' % t)
     U.add('rgbm_rt_' + t, [(t, 3)], [(t, 3)], 'stv(o, glm::unpackRGBM(glm::packRGBM(ldv<3,%s>(a))));' % t)
@@ -164,14 +162,10 @@ def code_formula(xb, bits, kind, scale, rm):
     r = z3.fpRoundToIntegral(rm, z3.fpMul(RNE, cl, FPV(float(scale), w)))
     return z3.fpToUBV(RTZ, r, z3.BitVecSort(bits)) if kind == 'u' else z3.fpToSBV(RTZ, r, z3.BitVecSort(bits))
 def code_to_fp(c, kind, srt): return z3.fpUnsignedToFP(RNE, c, srt) if kind == 'u' else z3.fpSignedToFP(RNE, c, srt)
-def slack_of(scale): return 0.5 + scale * 2.0 ** -24
-def halfstep(xb, c, kind, scale, side):
-    """|x*scale - c| <= 1/2 (+ half an ulp of the binary32 product). Exact: a binary32 x times an integer < 2^16 is exact in binary64, and c +- const is exact."""
-    P = z3.fpMul(RNE, z3.fpFPToFP(RNE, fp32(xb), F64), z3.FPVal(float(scale), F64)); C = code_to_fp(c, kind, F64); s = z3.FPVal(slack_of(scale), F64)
-    return z3.fpLEQ(z3.fpSub(RNE, C, s), P) if side == 'lo' else z3.fpLEQ(P, z3.fpAdd(RNE, C, s))
 def ext(x, n, signed): return z3.SignExt(n - x.size(), x) if signed else z3.ZeroExt(n - x.size(), x)
 def halfstep_int(xb, c, bits, kind, scale, e, side):
-    """the same bound for a normal binary32 x with biased exponent e in [126-bits, 126], in exact integer arithmetic: x = +-M*2^(e-150) with M = 2^23 + mantissa, so
+    """|x*scale - c| <= 1/2 + scale*2^-24 (half a code step plus half an ulp of the binary32 product) for a normal binary32 x with biased exponent e in [126-bits, 126], in exact integer
+    arithmetic: x = +-M*2^(e-150) with M = 2^23 + mantissa, so
     |x*scale - c| <= 1/2 + scale*2^-24   <=>   |M*scale - c*2^(150-e)| <= 2^(149-e) + scale*2^(126-e).   No floating-point operation on the specification side."""
     W = 2 * bits + 34
     M = z3.ZeroExt(W - 24, z3.Concat(z3.BitVecVal(1, 1), z3.Extract(22, 0, xb)))
@@ -179,7 +173,6 @@ def halfstep_int(xb, c, bits, kind, scale, e, side):
     N = z3.If(z3.Extract(31, 31, xb) == 1, -N, N)
     C = ext(c, W, kind == 's') << (150 - e); tol = z3.BitVecVal((1 << (149 - e)) + scale * (1 << (126 - e)), W)
     return (C - tol <= N) if side == 'lo' else (N <= C + tol)
-def in_range(xb, kind): return z3.And(z3.fpGEQ(fpof(xb), FPV(lo_of(kind), xb.size())), z3.fpLEQ(fpof(xb), FPV(1.0, xb.size())))
 def notnan(xb): return z3.Not(is_nan(xb))
 def maxcode(bits, kind, scale): return z3.BitVecVal(scale, bits)
 def mincode(bits, kind, scale): return z3.BitVecVal(0 if kind == 'u' else -scale, bits)
@@ -218,6 +211,7 @@ def prove_cases(S, fname, cases, pre, bounds, timeout=None, side=False, known=()
     fl = ['w_' + fname]
     for cn, hyp, spec in cases:
         hy = list(hyp(res.ins)) + hy0
+        S.prove('c06.%s.%s.witness' % (fname, cn), z3.BoolVal(False), hy, timeout=S.cap(20, 60), kind='witness', expect='sat', mandatory=False, functions=fl, vars_=allv, bounds=bounds + '; case ' + cn)     # the case is not empty
         for label, g in spec(res.ins, res.outs):
             on = 'c06.%s.%s.%s' % (fname, cn, label)
             S._prove_known(on, goal_term(g), hy, res, known, timeout=timeout or S.cap(60, 180), solver='z3', kind='spec', functions=fl, bounds=bounds + '; case ' + cn,
@@ -269,7 +263,7 @@ def job_quant(nm, sel=None):
             prove_cases(S, 'pack_' + nm, cases, pre, 'component %d split into sign/exponent classes covering all non-NaN floats (clamp obligations in the classes that meet their antecedent)' % k, side=(k == big[0] and not small))
     return run
 
-def job_halfstep(nm, sel=None, emax=126, emin=0, tag=''):
+def job_halfstep(nm, sel=None, emax=126, emin=0):
     """independent of the formula: |x*scale - code| <= 1/2 + half an ulp of the binary32 product, in exact integer arithmetic, per sign/exponent class of x in the range [lo, 1]:
     tiny x (|x*scale| < 1/2 by the exponent alone) -> code 0; biased exponents 126-bits .. emax -> halfstep_int; x = +-1 is the clamp-high/low obligation of job_quant"""
     F = NORM[nm]; fl = F.fields; sel = list(range(F.L)) if sel is None else sel
@@ -306,10 +300,25 @@ def job_mono(nm, sel=None, mandatory=True):
         def spec(i, o): return [('monotone[%d]' % k, code_le(F.outcode(o, k, 0), F.outcode(o, k, 1), fl[k][1])) for k in sel]
         pre = lambda i: [notnan(x) for x in i[0] + i[1]] + [z3.fpLEQ(fpof(i[0][k]), fpof(i[1][k])) for k in range(F.L)]
         k0 = sel[0]
-        S.check_fn(U, 'mono_' + nm, spec, pre, timeout=S.cap(200, 600), side=False, mutant=lambda i, o: [('strict', z3.Not(code_le(F.outcode(o, k0, 1), F.outcode(o, k0, 0), fl[k0][1])))],
+        S.check_fn(U, 'mono_' + nm, spec, pre, timeout=S.cap(600, 1500), side=False, mutant=lambda i, o: [('strict', z3.Not(code_le(F.outcode(o, k0, 1), F.outcode(o, k0, 0), fl[k0][1])))],
                    bounds='all pairs of non-NaN vectors with x_k <= y_k', mandatory=mandatory)
     return run
 
+def job_mono_adj(nm, sel, emax=None, emin=None, mandatory=True):
+    """monotonicity through adjacent floats: code(x) <= code(succ(x)) for every non-NaN binary32 x below +inf, where succ(x) is the next value in the IEEE order (-0 and +0 merged), per sign/exponent class of x;
+    by transitivity over the finite order, x <= y implies code(x) <= code(y).  (The two-variable form over all pairs is job_mono: the same claim in one query, several times more expensive.)"""
+    F = NORM[nm]; fl = F.fields
+    def succ(x): return z3.If(x == 0x80000000, z3.BitVecVal(0, 32), z3.If(z3.Extract(31, 31, x) == 0, x + 1, x - 1))
+    def run(S):
+        for k in sel:
+            b, kind, sc = fl[k]
+            def keep(cn):
+                if cn[0] not in 'en' or not cn[1:].isdigit(): return emin is None
+                return (emax is None or int(cn[1:]) <= emax) and (emin is None or int(cn[1:]) >= emin)
+            cases = [(cn, (lambda i, cf=cf, k=k: [cf(i[0][k])]), (lambda i, o, k=k, kind=kind: [('adjacent-monotone[%d]' % k, code_le(F.outcode(o, k, 0), F.outcode(o, k, 1), kind))])) for cn, cf, tag in exp_classes(kind, b) if keep(cn)]
+            prove_cases(S, 'mono_' + nm, cases, lambda i, k=k: [notnan(v) for v in i[0] + i[1]] + [i[1][k] == succ(i[0][k]), i[0][k] != 0x7f800000],
+                        'component %d: every non-NaN x < +inf against its successor, by sign/exponent class of x; other components free' % k, timeout=S.cap(200, 600), mandatory=mandatory)
+    return run
 def code_classes(bits, nsplit):
     """partition of the codes of one field by their top nsplit bits"""
     if nsplit == 0: return [('all', lambda c: z3.BoolVal(True))]
@@ -330,8 +339,8 @@ def job_repack(nm, sel=None, tops=None):
             return [('also-noncanonical', r == c)] if kind == 's' else [('plus-one', r == c + 1)]
         if small and tops is None: S.check_fn(U, 'rt_' + nm, spec, timeout=S.cap(200, 500), mutant=mut, bounds='every word (all 2^%d), per field' % F.wbits())
         for k in big:
-            cl = [(cn, cf) for cn, cf in code_classes(fl[k][0], 3) if tops is None or cn in tops]
-            prove_cases(S, 'rt_' + nm, [(cn, (lambda i, cf=cf, k=k: [cf(F.incode(i, k))]), (lambda i, o, k=k: spec(i, o, [k]))) for cn, cf in cl], lambda i: [], 'every word, field %d split by its top 3 bits' % k, timeout=S.cap(200, 500), side=(k == big[0] and (not small or tops is not None) and (tops is None or 'top0' in tops)))
+            cl = [(cn, cf) for cn, cf in code_classes(fl[k][0], 4) if tops is None or cn in tops]
+            prove_cases(S, 'rt_' + nm, [(cn, (lambda i, cf=cf, k=k: [cf(F.incode(i, k))]), (lambda i, o, k=k: spec(i, o, [k]))) for cn, cf in cl], lambda i: [], 'every word, field %d split by its top 4 bits' % k, timeout=S.cap(200, 500), side=(k == big[0] and (not small or tops is not None) and (tops is None or 'top0' in tops)))
         if tops is not None and 'top0' not in tops: return
         # unpack(pack(unpack(p))) == unpack(p)
         def spec2(i, o, ks=None): return [('unpack-pack-unpack[%d]' % k, o[0][k].bits == o[1][k].bits) for k in (small if ks is None else ks)]
@@ -365,7 +374,7 @@ def job_decode(nm, sel=None):
             k0 = sel[0]; b, kind, sc = fl[k0]; c = F.incode(i, k0)
             return [('scale+1', ordv(o[0][k0].bits) <= ordv(z3.fpToIEEEBV(z3.fpDiv(RTP, code_to_fp(c, kind, FSORT[w]), FPV(float(sc + 1), w)))) + 1)] + \
                    ([('next-field', ordv(z3.fpToIEEEBV(decode_bound(F.incode(i, 1), fl[1][1], fl[1][2], RTN, w))) - 1 <= ordv(o[0][0].bits))] if F.L > 1 and 0 in sel else [])
-        S.check_fn(U, 'unpack_' + nm, spec, timeout=S.cap(120, 300), mutant=mut,
+        S.check_fn(U, 'unpack_' + nm, spec, timeout=S.cap(300, 600), mutant=mut,
                    bounds='every word; component k within one ulp of the directed roundings of field_k/scale (signed: max(.,-1)); end codes decode to exactly 0, 1, -1')
     return run
 
@@ -635,9 +644,14 @@ def jobs(tier):
             if F.fw == 32:
                 J.append(('halfstep_' + tg, job_halfstep(nm, [k], emax=126 if b < 12 else HS16_MAXEXP)))
                 if b >= 12 and not q: J += [('halfstep_%s_e%d' % (tg, e), job_halfstep(nm, [k], emax=e, emin=e)) for e in range(HS16_MAXEXP + 1, 127)]
-            if b < 12 and (F.fw == 32 or not q): J.append(('mono_' + tg, job_mono(nm, [k])))       # binary64 (two 53-bit multipliers): thorough only
-            elif not q: J.append(('mono_' + tg, job_mono(nm, [k], mandatory=False)))
-            if b >= 12: J += [('repack_%s_%s' % (tg, h), job_repack(nm, [k], tops=tp)) for h, tp in (('lo', ('top0', 'top1', 'top2', 'top3')), ('hi', ('top4', 'top5', 'top6', 'top7')))]
+            if F.fw == 32 and b < 9: J.append(('mono_' + tg, job_mono_adj(nm, [k])))
+            elif F.fw == 32 and b < 12: J += [('mono_' + tg, job_mono_adj(nm, [k], emax=124)), ('mono_%s_top' % tg, job_mono_adj(nm, [k], emin=125))]
+            if not q:
+                if F.fw == 32 and b >= 12:      # 16-bit fields: adjacent-float monotonicity directly for |x| < 2^-6, optional above (quick: via the formula obligation and the rounding lemmas)
+                    J.append(('mono_' + tg, job_mono_adj(nm, [k], emax=HS16_MAXEXP)))
+                    J += [('mono_%s_e%d' % (tg, e), job_mono_adj(nm, [k], emin=e, emax=e, mandatory=False)) for e in range(HS16_MAXEXP + 1, 127)]
+                if b < 12: J.append(('mono2_' + tg, job_mono(nm, [k])))     # the two-variable form (binary64 instances: the only form)
+            if b >= 12: J += [('repack_%s_q%d' % (tg, h), job_repack(nm, [k], tops=tuple('top%d' % t for t in range(4 * h, 4 * h + 4)))) for h in range(4)]
     J.append(('round_lemmas', job_round_lemmas))
     # re-pack obligations directly on every field narrower than 12 bits of every format
     for nm, F in NORM.items():
@@ -649,7 +663,7 @@ def jobs(tier):
             if not rest: continue
             J.append(('all_quant_' + nm, job_quant(nm, rest))); J.append(('all_decode_' + nm, job_decode(nm, rest)))
             if small and F.fw == 32: J.append(('all_halfstep_' + nm, job_halfstep(nm, small)))
-            if small: J.append(('all_mono_' + nm, job_mono(nm, small)))
+            if small and F.fw == 32: J.append(('all_mono_' + nm, job_mono_adj(nm, small)))
             for k in big: J.append(('all_repack_%s_f%d' % (nm, k), job_repack(nm, [k])))
     for nm in INTF: J.append(('int_' + nm, job_int(nm)))
     for nm in ('I3x10_1x2', 'U3x10_1x2'): J.append(('int_' + nm, job_3x10(nm)))
@@ -663,6 +677,6 @@ def jobs(tier):
     for grp in ([[0, 1], [15, 16], [30, 31]] if q else [list(range(j, j + 4)) for j in range(0, 32, 4)]):
         J.append(('f3x9_repack_e%s' % '_'.join(str(e) for e in grp), job_f3x9_repack(grp)))
     # longest first (measured), so that the pool finishes evenly
-    pri = ('f3x9_pack_E15', 'mono_Unorm3x10', 'mono_Snorm3x10', 'repack_Unorm1x16', 'repack_Snorm1x16', 'f3x9_pack', 'decode_t', 'halfstep_Snorm1x16', 'halfstep_Snorm3x10', 'repack_t', 'halfstep_', 'repack_', 'mono_', 'round', 'f3x9', 'decode_', 'quant_')
+    pri = ('f3x9_pack_E15', 'mono_Snorm3x10_1x2_f0', 'mono_Unorm3x10_1x2_f0', 'decode_t', 'halfstep_Snorm1x16', 'f3x9_pack', 'halfstep_Snorm3x10', 'repack_Unorm1x16', 'repack_Snorm1x16', 'repack_t', 'halfstep_', 'repack_', 'mono_', 'round', 'f3x9', 'decode_', 'quant_')
     J.sort(key=lambda j: next((n for n, p_ in enumerate(pri) if j[0].startswith(p_)), len(pri)))
     return J
